@@ -1310,15 +1310,39 @@ def rat_compare(op, a, b):
         return sb if op == "eq" else sb.av_unop("not")
     # lt(a,b): a-b < 0
     if op == "lt":
-        return SymBool(("lt0", d.key(), d.fmt()))
+        return _lt0(d)
     if op == "ge":
-        return SymBool(("lt0", d.key(), d.fmt()), negated=True)
+        return _lt0(d).av_unop("not")
     nd = -d
     if op == "gt":
-        return SymBool(("lt0", nd.key(), nd.fmt()))
+        return _lt0(nd)
     if op == "le":
-        return SymBool(("lt0", nd.key(), nd.fmt()), negated=True)
+        return _lt0(nd).av_unop("not")
     raise AnalysisError(op)
+
+
+INTEGER_ATOMS: set = set()
+
+
+def _integer_valued(d: Rat) -> bool:
+    if not INTEGER_ATOMS or not d.d.is_const() or d.d.const_value() != 1:
+        return False
+    for m, c in d.n.t.items():
+        if Fraction(c).denominator != 1:
+            return False
+        for a, e in m:
+            if a not in INTEGER_ATOMS:
+                return False
+    return True
+
+
+def _lt0(d: Rat) -> SymBool:
+    """The predicate d < 0.  Over integer-valued d the two spellings d < 0 and
+    not(-d-1 < 0) denote the same predicate; one canonical form is chosen."""
+    if _integer_valued(d) and d.leading_sign() < 0:
+        e = -d - 1
+        return SymBool(("lt0", e.key(), e.fmt()), negated=True)
+    return SymBool(("lt0", d.key(), d.fmt()))
 
 
 def scalar_attr(interp, v, name):
